@@ -679,7 +679,12 @@ class Model:
             self.switch_to(op[1])
             self.f("wrap_switch")
             return True
-        if op[0] == "pop":           # yypop_buffer_state(); return 0 if a buffer remains
+        if op[0] == "gswitch_or_pop" and op[1] in self.bufs and op[1] not in self.bstack:
+            self.emit(["W", str(k), "0"])
+            self.switch_to(op[1])
+            self.f("wrap_switch_keep_exhausted")
+            return True
+        if op[0] in ("pop", "gswitch_or_pop"):   # yypop_buffer_state(); return 0 if a buffer remains
             if len(self.bstack) > 1:
                 self.emit(["W", str(k), "0"])
                 self.pop_buffer()
@@ -817,7 +822,7 @@ class Model:
             self.emit(["X", "delete", str(op[1])])
             self.f("delete")
         elif k in ("gcreate", "gswitch", "gpush", "gpop", "gdelete", "gscan_bytes",
-                   "gscan_string", "gscan_buffer", "gflush"):
+                   "gscan_string", "gscan_buffer", "gflush", "greflush"):
             self.do_guarded(op)
         elif k == "gdelete_all":     # the user deletes their own non-current buffers
             for s_ in [x for x in self.bufs if x not in self.bstack]:
@@ -910,6 +915,24 @@ class Model:
             else:
                 self.emit(["X", name, str(s), str(si), "null"])
                 self.f("scan_buffer_null")
+        elif k == "greflush":
+            s = op[1]
+            if s not in self.bufs or self.bufs[s].kind != "file":
+                self.emit(["X", "skip", name])
+                return
+            b = self.bufs[s]
+            self.emit(["X", "reflush", str(s)])
+            b.data = bytearray(self.sources[b.src])
+            b.pos = 0
+            b.base = 0
+            b.bol = True
+            b.pushed = 0
+            self.f("reflush")
+            if s == st[-1]:
+                self.more_pending = False
+                self.f("reflush_current")
+            else:
+                self.f("reflush_noncurrent")
         elif k == "gflush":
             s = op[1]
             if s not in self.bufs:
